@@ -80,3 +80,11 @@ pub broadcast axiom fn axiom_string_from_str(s: &str)
         <String as vstd::std_specs::convert::FromSpec<&str>>::obeys_from_spec(),
         (<String as vstd::std_specs::convert::FromSpec<&str>>::from_spec(s))@ == s@;
 
+// tokio::time::Instant / std::time::Instant: a monotone clock reading; elapsed() is some duration
+pub struct Instant { pub _p: u8 }
+impl Instant {
+    #[verifier::external_body]
+    pub fn now() -> (r: Instant) { unimplemented!() }
+    #[verifier::external_body]
+    pub fn elapsed(&self) -> (r: Duration) { unimplemented!() }
+}
